@@ -118,3 +118,23 @@ Definition run_fl_cmp (c : fl_case) : val :=
   | FlOk _ => run_fl c
   | r => VL [enc_fl r]
   end.
+
+(* DataIndex._load on an index holding the entry at k, when the storage found for it is a FileStorage: the
+   children are stored (overwriting whatever the trie held under those keys: they come first), the entry at k is
+   marked loaded; a refused load leaves no new index (DataIndexDirError through onerror) *)
+Definition mark_at (k : key) (i : idx) : idx :=
+  map (fun ke => if key_eqb (fst ke) k then (fst ke, mark (snd ke)) else ke) i.
+Definition idx_load_file (p : key) (w : ws) (k : key) (i : idx) : option idx :=
+  match load_file p w k with
+  | FlOk l => Some (l ++ mark_at k i)
+  | _ => None
+  end.
+
+(* the index route of the correspondence: an index holding only the unloaded directory entry at the key *)
+Definition dir0 : entry :=
+  {| e_meta := Some {| m_dir := true; m_size := None; m_exec := false |}; e_hash := None; e_loaded := false |}.
+Definition run_fl_idx (c : fl_case) : val :=
+  match idx_load_file (c_prefix c) (c_ws c) (c_key c) [(c_key c, dir0)] with
+  | Some i' => VL [VN 0; VL (map enc_fentry (sort_entries i'))]
+  | None => VL [VN 1]
+  end.
